@@ -294,6 +294,12 @@ impl Pool {
                 let st = s.started_ms.load(Ordering::Relaxed);
                 if st != 0 && now > st + to {
                     let pid = s.pid.load(Ordering::Relaxed);
+                    // a worker that has had little CPU time since the case started is being starved by other load
+                    // on the machine, not stuck: it gets up to eight times the wall-clock budget before it is killed
+                    let cpu_used = if pid != 0 { proc_cpu_ms(pid).saturating_sub(s.cpu_at_start.load(Ordering::Relaxed)) } else { 0 };
+                    if cpu_used < to * 3 / 4 && now <= st + to * 8 {
+                        continue;
+                    }
                     if pid != 0 && !s.killed.swap(true, Ordering::Relaxed) {
                         s.cpu_at_kill.store(proc_cpu_ms(pid), Ordering::Relaxed);
                         unsafe {
